@@ -172,6 +172,11 @@ func (rm *ResponseManager) abortRequest(ctx context.Context, requestID graphsync
 			return nil
 		})
 	}
+	if err == queryexecutor.ErrNetworkError {
+		// the executor may already be past its last check for signals (finishing its
+		// last block); finishTask must still learn that nothing more can be sent
+		response.networkError = true
+	}
 	select {
 	case response.signals.ErrSignal <- err:
 	default:
@@ -398,7 +403,9 @@ func (rm *ResponseManager) finishTask(task *peertask.Task, p peer.ID, err error)
 		return
 	}
 
-	if err == queryexecutor.ErrNetworkError {
+	if err == queryexecutor.ErrNetworkError || response.networkError {
+		// on a network error the response stream is closed and whatever the executor
+		// queued is dropped, so no message notification will ever close this response
 		rm.terminateRequest(requestID)
 		return
 	}
